@@ -66,6 +66,19 @@ def _switch_cases(fn):
 
 
 def run(res, tier):
+    state_tables(res)
+    reset_cover(res)
+    keyframes(res)
+    res.explanation = (
+        "Table agreement between the mjtState enum (clang AST of the headers), the size/pointer switches, the "
+        "MJDATA_POINTERS X-macro extents (preprocessor expansion) and the five state loops; cursor and direction "
+        "discipline of get/set/copy/extract; coverage of mjData members by the reset closure (mod facts over the whole "
+        "engine call graph); key_* array coverage and extents in the keyframe functions.")
+    res.not_decided = "the numeric values copied; behaviour of user plugins' reset callbacks."
+    res.assumptions = ["error handlers do not return"]
+
+
+def state_tables(res):
     u = engine.unit(FILE)
     need = ["mj_stateElemSize", "mj_stateElemPtr", "mj_stateSize", "mj_getState", "mj_setState", "mj_copyState",
             "mj_extractState"]
@@ -252,6 +265,51 @@ def run(res, tier):
                     if not (frm.get(a[0]) == dstd[0] and frm.get(a[1]) == srcd[0] and a[2] == SZ):
                         problems.append(f"mju_copy({', '.join(a)}) does not copy the element size from the source data's element to "
                                         f"the destination data's element")
+            if fname == "mj_copyState" and len(srcd) == 1 and len(dstd) == 1:
+                # special branches: exactly `size` elements of the field's own element type move from src to dst
+                for x in cir.walk(body):
+                    if x.get("k") != "IfStmt":
+                        continue
+                    m = re.fullmatch(re.escape(E) + r" == (mjSTATE_\w+)", cir.text(cir.kids(x)[0]))
+                    if not m:
+                        continue
+                    then = cir.kids(x)[1]
+                    decl = {y.get("n"): cir.text([z for z in cir.kids(y) if z][-1]) for y in cir.walk(then)
+                            if y.get("k") == "VarDecl" and y.get("init")}
+                    want_n = elem_size.get(m.group(1))
+                    okk = False
+                    why = "no element copy found"
+                    inner = [y for y in cir.walk(then) if y.get("k") == "ForStmt"]
+                    if len(inner) == 1:
+                        ic = list(cir.kids(inner[0])) + [None] * 5
+                        mm = re.fullmatch(r"(\w+) < (\w+(?:->\w+)?)", cir.text(ic[2]))
+                        asg = [z for z in cir.walk(ic[4]) if z.get("k") == "BinaryOperator" and z.get("op") == "="]
+                        if mm and len(asg) == 1:
+                            lim = decl.get(mm.group(2), mm.group(2))
+                            if lim == SZ:
+                                lim = want_n
+                            l, r_ = (cir.text(q) for q in cir.kids(asg[0]))
+                            j = mm.group(1)
+                            fl = re.fullmatch(re.escape(dstd[0]) + r"->(\w+)\[" + j + r"\]", l)
+                            fr = re.fullmatch(re.escape(srcd[0]) + r"->(\w+)\[" + j + r"\]", r_)
+                            okk = bool(fl and fr and fl.group(1) == fr.group(1) and lim == want_n)
+                            why = f"loop copies `{l} = {r_}` for {cir.text(ic[2])}"
+                    else:
+                        for c in cir.calls(then):
+                            if cir.callee(c) in ("memcpy", "memmove"):
+                                a = [cir.text(y) for y in cir.args(c)]
+                                fl = re.fullmatch(re.escape(dstd[0]) + r"->(\w+)", a[0])
+                                fr = re.fullmatch(re.escape(srcd[0]) + r"->(\w+)", a[1])
+                                if fl and fr and fl.group(1) == fr.group(1):
+                                    row = dptr.get(fl.group(1))
+                                    fs = sorted(t.strip() for t in a[2].replace("(", " ( ").split("*"))
+                                    n_ok = {f"sizeof({row['type']})" if row else "?", SZ} == {t.replace(" ( ", "(").replace(" )", ")").strip() for t in a[2].split("*")} \
+                                        or {f"sizeof({row['type']})" if row else "?", want_n} == {t.strip() for t in a[2].split("*")}
+                                    okk = bool(row) and n_ok
+                                    why = f"memcpy of `{a[2]}` bytes for a field of element type {row['type'] if row else '?'}"
+                    if not okk:
+                        problems.append(f"special branch for {m.group(1)} does not copy exactly its size in elements of the field's type "
+                                        f"from the source to the destination ({why})")
             if fname == "mj_extractState":
                 adv = {}
                 for x in cir.walk(body):
@@ -290,15 +348,6 @@ def run(res, tier):
         else:
             res.ok("R-STATE-LOOP", fname, {"file": FILE, "line": fn.get("line")})
 
-    reset_cover(res)
-    keyframes(res)
-    res.explanation = (
-        "Table agreement between the mjtState enum (clang AST of the headers), the size/pointer switches, the "
-        "MJDATA_POINTERS X-macro extents (preprocessor expansion) and the five state loops; cursor and direction "
-        "discipline of get/set/copy/extract; coverage of mjData members by the reset closure (mod facts over the whole "
-        "engine call graph); key_* array coverage and extents in the keyframe functions.")
-    res.not_decided = "the numeric values copied; behaviour of user plugins' reset callbacks."
-    res.assumptions = ["error handlers do not return"]
 
 
 def reset_cover(res):
